@@ -1,6 +1,6 @@
 """C16 — grisubal meshes exactly the input geometry.
 
-Implementation-only end-to-end oracle (the float pipeline is not modelled, DESIGN.md §7 C16): the
+Implementation-only end-to-end oracle (the f64 rounding of the pipeline is not modelled; the pipeline itself is, over exact rationals: DESIGN.md §13.2 C16): the
 harness drives the public `honeycomb_kernels::grisubal::grisubal` on generated geometries and the
 clauses of the property are evaluated here, independently, on exact `Fraction`s of the f64 values
 of the resulting map (explicit tolerance 1e-9 where a clause is geometric).
@@ -29,7 +29,7 @@ SPEC = {
                           "C16_shift_lt_half", "C16_on_line_for_one_shift", "C16_shift_loop_terminates", "C16_shift_loop_exit",
                           "C16_no_vertex_on_grid_corner", "C17_no_vertex_on_grid_line",
                           "C16_walk_edge_spec", "C16_edge_of_key_spec", "C16_edge_data_spec", "C16_edge_data_order_independent",
-                          "C16_buildBaseEdge_spec", "C16_markBoundary_spec", "C16_insertOneEdge_inv", "C16_insert_edges_inv",
+                          "C16_buildBaseEdge_spec", "C16_markBoundary_spec", "C16_insertOneEdge_inv", "C16_insertOneEdge_shape", "C16_insert_edges_inv",
                           "C16_pipeline_clip_hyps", "C16_pipeline_clip_WF", "C16_deleteDarts_spec", "C16_deleteDarts_order_independent",
                           "C16_clip_spec", "C16_clip_WF", "C16_clip_order_independent", "C16_clipLeft_spec", "C16_clipRight_spec",
                           "C16_between_crossings_one_cell"],
@@ -59,6 +59,16 @@ SPEC = {
         "both sides, equal positions, positions 0 / 1 -> panic on both sides) + the real slot vectors of 80 / 640 corner and 80 / 640 "
         "on-line geometries; plus a hook-level Python oracle on the implementation (each written slot k: res[k] is a new dart on the "
         "beta1 chain of the dart hit, its vertex is the point at position t; unwritten slots 0; 2 new darts per written slot; wf)",
+        "hand-written model of steps 1 (whole geometry: `segmentsOf`, `slotsAll`), 4 (`edgeData`: generate_edge_data, HashMap order as a "
+        "parameter) and 5 (`stepFive`: insert_edges_in_map = build_base_edge + insert_vertices_on_edge with placeholder positions + "
+        "replacement of the placeholders by the points of interest (+ VertexAnchor::Node(edge index) when the map has anchors) + "
+        "mark_boundary) in Model/Grisubal.lean / Model/GrisubalInsert.lean, tied through the hooks grisubal::verif::{segments, edge_data, "
+        "insert_edges} (/repo 5e09671): protocol `gseg`, `gedges`, `gins` on both drivers and `gpipe` (implementation: steps 1-5 hook by "
+        "hook on a fresh grid, every intermediate datum dumped); stream `whole pipeline`: for exact-family geometries (zonogons, non-convex "
+        "exact polygons, edges through corners; shuffled segment orders; clips none / left / right in turn) the model is driven step by "
+        "step with the HashMap orders read off the implementation's data: segments + slots, dart vector, edge data (as a set), then `wf` and "
+        "the FULL snapshot after step 5 (beta, flags, coordinates, Boundary tags, anchors) and after the clip as IDENTICAL TEXT; and the map "
+        "of the end-to-end call `grisubal <clip>` is the hook-by-hook map up to the numbering of the darts (implementation only)",
         "hand-written model Model/Clip.lean (clip_left / clip_right / mark_faces / delete_darts over the per-dart Boundary storage 9) "
         "tied through the hook grisubal::verif::{clip_left, clip_right, Boundary}: protocol `bndinit` / `wbnd` / `clip left|right` on "
         "both drivers; streams: 300 tagged grids (regions, missing / flipped / stray / explicit-None tags), every well-formed 2-map "
@@ -77,7 +87,7 @@ SPEC = {
         "(origin = bounding-box minimum - 1.5 cells), no segment through a grid corner, simple pairwise disjoint loops, "
         "consistent orientation (holes reversed). Every stream that evaluates a clause of the property stays inside it. The streams "
         "`edges through grid corners` and `vertices on grid lines` (exact families) lie OUTSIDE the statement's general position: they "
-        "are correspondence-only (steps 1-3, model vs implementation through the two hooks), no clause of C16 is evaluated on them",
+        "are correspondence-only (steps 1-5, model vs implementation through the cfg(honeycomb_verif) wrappers), no clause of C16 is evaluated on them",
         "geometric clauses are validated on the f64 instantiation with tolerance 1e-9 (positions) / 1e-9 relative (areas); "
         "signs of face areas and all topology are exact; rounding itself is not modelled",
         "C16_crossings_* are stated over exact rationals for segments in eps-general position (GenPos: ends inside the grid "
@@ -98,7 +108,9 @@ SPEC = {
             "+ steps 2-3 tie (`gids`, hook): 800 slot vectors; + outside general position, correspondence only: 80 polygons with an edge "
             "through a grid corner and 80 with a vertex on a grid line: gcrossd on every segment, gids on the real slot vector. "
             "+ origin-shift loop: 40 polygons with vertices on corners of the successive grids (1..4 shifts): `ogridg` tie, and "
-            "the end-to-end oracle on those in general position w.r.t. the final grid. thorough: x8. "
+            "the end-to-end oracle on those in general position w.r.t. the final grid; + whole pipeline hook by hook (gpipe / gseg / gids / "
+            "gedges / gins / clip): 25 zonogons + 25 non-convex exact polygons (in scope) and 25 polygons with an edge through a corner "
+            "(correspondence only). thorough: x8. "
             "distinct_nontrivial = distinct implementation transcripts.",
     "observations": [
         "OBSERVATION outside the property (not a finding: C16 is stated for boundaries in general position with respect to the grid): "
@@ -137,14 +149,31 @@ SPEC = {
         "C16_unwritten_slot_null (every written slot k gets its own dart at res[k], unwritten slots shift nothing), and on the map "
         "C16_insert_edge_spec (one edge: WF, C14's InsertResult chain, hit i reads fh[i] / sh[len-1-i] with beta1(beta2 sh[len-1-i]) = "
         "fh[i], the vertex of fh[i] carries the point at t_i). NOT proved: the induction over all edges of insert_intersections "
-        "(frame clauses of InsertResult; validated by the gids tie), that add_free_darts provides the live free block (tied), "
-        "steps 4-5 (generate_edge_data, insert_edges_in_map, mark_boundary): not modelled; covered only by the end-to-end oracle",
+        "(frame clauses of InsertResult; validated by the gids tie), that add_free_darts provides the live free block (tied)",
+        "steps 4 + 5 (generate_edge_data, insert_edges_in_map) are modelled, tied through the hooks and proved: step 4 (Props/C16Edges.lean) — "
+        "the walk collects exactly the points of interest of the chain up to the next intersection, in order (C16_walk_edge_spec, "
+        "C16_edge_of_key_spec: start dart beta2(dart of the start crossing), end dart = dart of the end crossing), one edge per key, the set of "
+        "edges independent of the HashMap order (C16_edge_data_spec, C16_edge_data_order_independent); step 5 (Props/C16EdgeInsert.lean) — "
+        "build_base_edge (C16_buildBaseEdge_spec: explicit beta images, WF, all attributes untouched), one iteration (C16_insertOneEdge_inv: WF, "
+        "counts, tags Left/Right/absent, opposite tags on the two sides, remaining darts live free untagged; C16_insertOneEdge_shape: chain start "
+        "-> new darts -> end, the j-th point of interest is the coordinate of the vertex of the j-th intermediate dart, Node(i) anchor with the "
+        "anchor storages, Left on the chain and Right on its beta2 images), the whole loop from an untagged map (C16_insert_edges_inv), hence the "
+        "hypotheses of C16_clip_WF for BOTH clips (C16_pipeline_clip_hyps) and the composition C16_pipeline_clip_WF. NOT proved: (i) that the "
+        "kernel's data satisfy the hypotheses of these theorems (start / end darts in use: they are darts of steps 2-3, tied); (ii) ONE theorem "
+        "chaining steps 1-5 on the grid (`every crossing and every retained point of interest is a vertex` is the composition, in prose, of "
+        "C16_crossings_complete / C16_metadata_spec [crossing -> slot], C16_intersection_darts_spec + C16_insert_edge_spec [slot -> dart whose "
+        "vertex carries the crossing], C16_edge_of_key_spec + C16_insertOneEdge_shape [point of interest -> intermediate of an edge -> vertex], "
+        "steps 4-5 writing coordinates only at the vertices of their own new darts); (iii) that each new edge lies inside ONE cell (geometric: "
+        "C16_between_crossings_one_cell covers the part inside one segment); (iv) that step 5 never fails (build_base_edge panics when start and "
+        "end are consecutive darts; not met on generated data); (v) f64",
         "clip step: modelled, tied through the hook and proved on the topology (Props/C16Clip.lean: closure, error, deletion for "
         "every HashSet order, order independence, WF + 2-free boundary; mark_faces total: the loop ends within the model's fuel, "
         "error iff a closure face carries the other tag). NOT proved: totality of delete_darts (panics on a kept boundary dart "
         "without coordinates: modelled and tied); coordinates and vertex anchors after the clip (restored from the saved kept-boundary darts; which "
-        "stale slots keep a value depends on the HashSet order); that the tags written by insert_edges_in_map satisfy the "
-        "hypotheses of C16_clip_WF (pairing Left/Right along a closed boundary) — validated on the rebuilt pre-clip maps",
+        "stale slots keep a value depends on the HashSet order); (that the tags written by insert_edges_in_map satisfy the "
+        "hypotheses of C16_clip_WF IS proved: C16_pipeline_clip_hyps)",
+        "clauses that are FALSE on the current tree: known findings D16a (a boundary loop inside one cell is dropped) and D16b (negatively "
+        "oriented face on a same-side dip), reported by the end-to-end oracle on every run",
     ],
 }
 
